@@ -22,7 +22,7 @@ Open Scope N_scope.
    are explicit branches below (each names the optdec source):
      the whole document is read to a DOM first: every escape sequence is checked and a number that overflows
        binary64 is an error wherever it stands                                  [native parse_with_padding, Parser.parse]
-     raw control characters inside strings are not refused, ValidateString or not  [node.go: AsStr]
+     ill-formed UTF-8 and raw control characters inside strings: outside the model          [node.go: AsStr]
      float32: a binary64 value above MaxFloat32 is refused before rounding     [functor.go: f32Decoder]
      slices: one allocation for the final length, reusing the old array only when its capacity suffices;
        []string / []int32.. / []int64.. decoders refuse null elements          [slice.go, rt.MakeSlice, node.go: AsSliceString..]
@@ -213,6 +213,8 @@ Section Sonic.
       end
     end.
 
+  Definition is_fnil (fs : fields) : bool := match fs with FNil => true | _ => false end.
+
   Definition fast_slice_elem (e : ty) : bool :=
     match e with TStr | TInt I32 | TInt I64 | TInt U32 | TInt U64 => true | _ => false end.
 
@@ -311,11 +313,10 @@ Section Sonic.
       | JObj _ l =>
         let names := fnames fs in
         let vs0 := match v with VList vs _ => vs | _ => zero_fields fs end in
-        match fs with
-        | FNil =>                                           (* skip_emtpy: the whole object is skipped; with
+        if is_fnil fs then                                           (* skip_emtpy: the whole object is skipped; with
                                                                DisallowUnknownFields a ':' in the skipped text is an error *)
           if o_disallow_unknown o then (match l with [] => Ok (VList vs0 []) | _ => Err end) else Ok (VList vs0 [])
-        | _ =>
+        else
           do vs <- (fix go (l : list (bytes * jv)) (vs : list val) : res (list val) :=
                       match l with
                       | [] => Ok vs
@@ -330,7 +331,6 @@ Section Sonic.
                         end
                       end) l vs0;
           Ok (VList vs [])
-        end
       | _ => Err
       end
     | TAny =>                                               (* compileInterface: is_null -> nil_2, _OP_any *)
@@ -405,7 +405,7 @@ Section Sonic.
         else if negb (has_inf j) then
           (* raw control characters: refused or not depending on the option, the position (scalar tail of the native
              scanner) and the use of the string: outside the model *)
-          if has_ctl j then match sonic_bind t j v with Err => Err | _ => Unk end
+          if has_ctl j || negb (utf8_valid s) then match sonic_bind t j v with Err => Err | _ => Unk end
           else sonic_bind t j v
         else Err
       | None => Err
